@@ -62,6 +62,7 @@ def run_configs(ctx, module, harness_bin, configs, actions, what_prefix, harness
             f.write(json.dumps(rc["case"]) + "\n")
         rep = run_harness(ctx, exe, cases, rc.get("args", []), "replay")
         report(ctx, rep, rc.get("cfg", "?"), rc.get("args", []), what_prefix)
+        report_notes(ctx, rep, rc.get("cfg", "?"), rc.get("args", []))
         return
     for c in configs:
         cfg = c["cfg"]
@@ -98,6 +99,7 @@ def run_configs(ctx, module, harness_bin, configs, actions, what_prefix, harness
                 line = f.readline()
             ctx.sample({"cfg": cfg, "program": json.loads(line)})
         report(ctx, rep, cfg, args, what_prefix)
+        report_notes(ctx, rep, cfg, args)
         if ctx.violations:
             return
         try:
@@ -124,6 +126,28 @@ def run_harness(ctx, exe, cases, args, label):
         vlib.log("[harness] %d program(s) hung once and ran normally when repeated (platform noise, not a verdict)" % noise)
     ctx.cov["impl_steps_compared"] = ctx.cov.get("impl_steps_compared", 0) + rep["checks"]
     return rep
+
+
+def report_notes(ctx, rep, cfg, args):
+    """Deviations the harness classifies without ending the program (an open known finding has
+    its own signature): each distinct one is passed to ctx.violation, which prints VIOLATION unless
+    known_findings.json lists it as open.  The signature starts with the note's `what`."""
+    extra = rep.get("extra", {})
+    total = extra.get("notes_total", 0)
+    if total:
+        ctx.cov["classified_deviations"] = ctx.cov.get("classified_deviations", 0) + total
+    seen = set()
+    for n in extra.get("notes", []):
+        note = n["note"]
+        sig = "%s; context form %s; dropped %s" % (n["what"], note.get("form"), note.get("where"))
+        if sig in seen:
+            continue
+        seen.add(sig)
+        case = {"steps": n["case"]["steps"], "no": n.get("no", 0)}
+        ops = " ".join("%s@%s" % (s.get("op"), s.get("t")) for s in case["steps"])
+        ctx.violation("%s (want %s, ambient %s, got %s; cfg %s; program: %s)" % (
+            sig, json.dumps(note.get("want")), json.dumps(note.get("ambient")), note.get("got"), cfg, ops),
+            {"cfg": cfg, "args": list(args), "case": case, "detail": note}, signature=sig)
 
 
 def report(ctx, rep, cfg, args, what_prefix):
